@@ -423,8 +423,15 @@ func checkJSONRow(c *core.Ctx) {
 					nl = true
 				}
 			}
-			if e.Name == "WRITE" && (bufField == "" || e.Args[0].Canon() != bufField) {
-				nl = false
+			if e.Name == "WRITE" {
+				w := e.Args[0].Canon()
+				switch {
+				case strings.HasPrefix(w, "append(MARSHALLED;") && (strings.Contains(w, "[10]") || strings.Contains(w, `'\n'`)):
+					// the value written is the marshalled object with a newline appended
+					nl = true
+				case bufField == "" || w != bufField:
+					nl = false
+				}
 			}
 		}
 		if !okSet {
